@@ -285,7 +285,10 @@ pub struct RunLog {
     /// steps during which the process died: (step, description)
     pub crashes: Vec<(u64, String)>,
     pub done: bool,
+    /// raw stderr of each run (attribution markers `@@step N` included)
     pub tool_reports: Vec<String>,
+    /// (step the report belongs to, report text) after tool-specific parsing
+    pub reports: Vec<(Option<u64>, String)>,
     pub restarts: usize,
     pub inconclusive: Option<String>,
     pub wall: f64,
@@ -406,16 +409,24 @@ pub fn run_valgrind(bin: &Path, last_step: u64) -> RunLog {
         last_step,
         Duration::from_secs(600),
     );
-    // keep only genuine memcheck error blocks
+    // keep only genuine memcheck error blocks, attributed to the step marker before them
     let joined = log.tool_reports.join("\n");
-    log.tool_reports = memcheck_errors(&joined);
+    log.reports = memcheck_errors(&joined);
     log
 }
 
-pub fn memcheck_errors(stderr: &str) -> Vec<String> {
-    let mut out = vec![];
-    let mut cur: Option<String> = None;
+pub fn memcheck_errors(stderr: &str) -> Vec<(Option<u64>, String)> {
+    let mut out: Vec<(Option<u64>, String)> = vec![];
+    let mut cur: Option<(Option<u64>, String)> = None;
+    let mut step: Option<u64> = None;
     for line in stderr.lines() {
+        if let Some(n) = line.strip_prefix("@@step ") {
+            if let Some(c) = cur.take() {
+                out.push(c);
+            }
+            step = n.trim().parse().ok();
+            continue;
+        }
         let Some(rest) = line.strip_prefix("==") else { continue };
         let Some(idx) = rest.find("== ") else {
             // "==123==" alone ends a block
@@ -438,11 +449,11 @@ pub fn memcheck_errors(stderr: &str) -> Vec<String> {
             if let Some(c) = cur.take() {
                 out.push(c);
             }
-            cur = Some(body.to_string());
+            cur = Some((step, body.to_string()));
         } else if let Some(c) = cur.as_mut() {
-            if c.len() < 1500 {
-                c.push('\n');
-                c.push_str(body);
+            if c.1.len() < 1500 {
+                c.1.push('\n');
+                c.1.push_str(body);
             }
         }
     }
@@ -450,6 +461,12 @@ pub fn memcheck_errors(stderr: &str) -> Vec<String> {
         out.push(c);
     }
     out
+}
+
+fn last_step_before(text: &str, pos: usize) -> Option<u64> {
+    let head = &text[..pos.min(text.len())];
+    let i = head.rfind("@@step ")?;
+    head[i + 7..].lines().next()?.trim().parse().ok()
 }
 
 pub fn run_asan(bin: &Path, last_step: u64) -> RunLog {
@@ -465,11 +482,13 @@ pub fn run_asan(bin: &Path, last_step: u64) -> RunLog {
         Duration::from_secs(300),
     );
     let joined = log.tool_reports.join("\n");
-    log.tool_reports = joined
-        .split("=================================================================")
-        .filter(|b| b.contains("ERROR: AddressSanitizer"))
-        .map(|b| crate::verdict::one_line(b.trim(), 1500))
-        .collect();
+    let mut pos = 0usize;
+    for block in joined.split("=================================================================") {
+        if block.contains("ERROR: AddressSanitizer") {
+            log.reports.push((last_step_before(&joined, pos), crate::verdict::one_line(block.trim(), 1500)));
+        }
+        pos += block.len() + 65;
+    }
     log
 }
 
@@ -501,13 +520,20 @@ pub fn run_miri(crate_dir: &Path, last_step: u64, target_dir: &Path) -> RunLog {
         Duration::from_secs(1800),
     );
     let joined = log.tool_reports.join("\n");
-    log.tool_reports = joined
-        .split("\nerror")
-        .skip(1)
-        .filter(|b| b.contains("Undefined Behavior") || b.contains("unsupported operation") || b.contains("memory leaked") || b.contains("post-monomorphization"))
-        .map(|b| crate::verdict::one_line(&format!("error{b}"), 1500))
-        .collect();
-    if log.tool_reports.is_empty() && !log.done && log.inconclusive.is_none() && log.crashes.is_empty() {
+    let mut pos = 0usize;
+    for (i, block) in joined.split("\nerror").enumerate() {
+        if i > 0
+            && (block.contains("Undefined Behavior")
+                || block.contains("unsupported operation")
+                || block.contains("memory leaked")
+                || block.contains("post-monomorphization")
+                || block.contains("the evaluated program"))
+        {
+            log.reports.push((last_step_before(&joined, pos), crate::verdict::one_line(&format!("error{block}"), 1500)));
+        }
+        pos += block.len() + 6;
+    }
+    if log.reports.is_empty() && !log.done && log.inconclusive.is_none() && log.crashes.is_empty() {
         log.inconclusive = Some(format!("miri did not finish: {}", crate::verdict::one_line(&joined, 400)));
     }
     log
